@@ -203,7 +203,7 @@ def _guarded_calls(inv, name: str, guards: dict) -> list:
     def rec(stmts, conds):
         for st in stmts:
             if st.kind == "callstat" and st.call.kind == "call" and L.text(st.call.func) == name:
-                out.append((st, not conds, any(_only_when_top_level(c, guards) for c in conds)))
+                out.append((st, not conds, any(_only_when_top_level(c, guards) for c in conds if c is not None)))
             elif st.kind == "if":
                 for i, (cnd, body) in enumerate(st.clauses):
                     rec(body, conds + ([cnd] if i == 0 else [cnd, None]))
@@ -702,6 +702,18 @@ def rule_r7(ctx) -> RuleResult:
     return rr
 
 
+def rule_r9(ctx) -> RuleResult:
+    """Whether an invocation is top-level (and so arms the hook, R8) is read from the environment stack that the Lua side was
+    handed once, at initialisation.  If the per-page reset rebinds `lua_env_stack` instead of emptying it, Python pops a new
+    deque while Lua keeps pushing on the old one: one environment stays behind, every later top-level #invoke looks nested
+    and runs without any time limit (seed C07-7A).  Shared with C09.R8."""
+    from ..core.report import shared
+    from . import c09
+
+    return shared(c09.rule_r8(ctx), "C07.R9", "the stacks the Lua side holds by identity are never rebound (shared with C09.R8)",
+                  "after the next start_page a top-level #invoke is taken for a nested one and gets no timeout hook", min_instances=2)
+
+
 def run(ctx) -> list:
     marker = _marker(ctx)
-    return [rule_r1(ctx), rule_r2(ctx, marker), rule_r3(ctx), rule_r4(ctx, marker), rule_r5(ctx, marker), rule_r6(ctx), rule_r7(ctx), rule_r8(ctx)]
+    return [rule_r1(ctx), rule_r2(ctx, marker), rule_r3(ctx), rule_r4(ctx, marker), rule_r5(ctx, marker), rule_r6(ctx), rule_r7(ctx), rule_r8(ctx), rule_r9(ctx)]
